@@ -13,6 +13,8 @@ import (
 	"sort"
 	"strings"
 
+	"golang.org/x/tools/go/ssa"
+
 	"gosym/term"
 )
 
@@ -55,6 +57,7 @@ type fsModel struct {
 	tmpCount  int
 	log       []string
 	shortWr   bool // writes may be short
+	onOp      value // harness callback fired (once) before a solver-chosen filesystem call
 }
 
 var FS *fsModel
@@ -81,6 +84,14 @@ func (m *fsModel) op(name string, canFail bool) bool {
 			m.crashed = true
 			m.log = append(m.log, "CRASH before "+name)
 			panic(crashSignal{})
+		}
+	}
+	if m.onOp != nil {
+		if branchFresh(newInput(freshName("event"), term.Bool)) {
+			f := m.onOp
+			m.onOp = nil
+			m.log = append(m.log, "EVENT before "+name)
+			call(theInterp, nil, 0, f, nil)
 		}
 	}
 	if m.faults && canFail && m.nfaults < m.faultsMax {
@@ -902,6 +913,22 @@ func init() {
 	apiExt["gosym_FSFaults"] = func(fr *frame, a []value) value { // max number of injected faults (0 = off)
 		FS.faultsMax = int(asInt64(a[0]))
 		FS.faults = FS.faultsMax > 0
+		return nil
+	}
+	// gosym_FSEventPoint(f): f() is invoked once, immediately before a nondeterministically chosen later
+	// filesystem call (or never) -- e.g. a context cancellation landing at any step of a write.
+	apiExt["gosym_FSEventPoint"] = func(fr *frame, a []value) value {
+		FS.onOp = a[0]
+		switch f := a[0].(type) {
+		case *ssa.Function:
+			if f == nil {
+				FS.onOp = nil
+			}
+		case *closure:
+			if f == nil {
+				FS.onOp = nil
+			}
+		}
 		return nil
 	}
 	apiExt["gosym_FSShortWrites"] = func(fr *frame, a []value) value { FS.shortWr = decide(a[0]); return nil }
